@@ -39,10 +39,11 @@ MINE = "C13"
 
 def all_cases(tier: str, seed: int):  # noqa: ANN201
     cfgs = ["stock", "eager"]
+    rcfgs = ["stock", "eager"] * 3 + ["uvloop"]  # a share of the random cases on uvloop
     yield from memstream.sweep_c13(cfgs)
     rng = random.Random(seed * 6163 + 13)
     for _ in range(80000 if tier == "thorough" else 8000):
-        yield memstream.gen_c13(rng, cfgs)
+        yield memstream.gen_c13(rng, rcfgs)
 
 
 def judge(case: dict, col) -> None:  # noqa: ANN001
